@@ -297,9 +297,17 @@ class SimplifySymbolNames:
                     yield Simplification({symbol: Node('|' + s + '|')}, [])
         else:
             for s in self.__simpler(symbol):
-                # a numeral (or another constant) is not a symbol name
-                if not is_var(Node(s)) and not is_const(Node(s)):
+                # a numeral (or another constant) is not a symbol name,
+                # nor is a reserved word ('_' would be taken for a variable
+                # inside every indexed identifier)
+                if not is_var(Node(s)) and not is_const(
+                        Node(s)) and s not in self.__reserved:
                     yield Simplification({symbol: Node(s)}, [])
+
+    __reserved = frozenset([
+        '!', '_', 'as', 'BINARY', 'DECIMAL', 'exists', 'HEXADECIMAL', 'forall',
+        'let', 'match', 'NUMERAL', 'par', 'STRING'
+    ])
 
     def __simpler(self, symbol):
         """Return a list of simpler versions of the given symbol."""
